@@ -13,7 +13,35 @@ use stdcode::StdcodeSerializeExt;
 use tip911_stakeset::StakeSet;
 use tmelcrypt::{Ed25519PK, Ed25519SK, HashVal};
 
-pub type Cas = InMemoryCas;
+/// Content-addressed store of the harness: like novasmt's in-memory store, but its contents can
+/// be copied node by node into a fresh store (used to model a restart: nothing in memory shared).
+#[derive(Default, Debug)]
+pub struct RecCas(dashmap::DashMap<Vec<u8>, std::sync::Arc<Vec<u8>>>);
+
+impl novasmt::ContentAddrStore for RecCas {
+    fn get<'a>(&'a self, key: &[u8]) -> Option<std::borrow::Cow<'a, [u8]>> {
+        self.0.get(key).map(|v| std::borrow::Cow::Owned(v.as_ref().clone()))
+    }
+    fn insert(&self, key: &[u8], value: &[u8]) {
+        self.0.insert(key.to_vec(), std::sync::Arc::new(value.to_vec()));
+    }
+}
+
+impl RecCas {
+    /// A fresh store holding a byte-for-byte copy of every node of this one.
+    pub fn deep_copy(&self) -> RecCas {
+        let n = RecCas::default();
+        for e in self.0.iter() {
+            n.0.insert(e.key().clone(), std::sync::Arc::new(e.value().as_ref().clone()));
+        }
+        n
+    }
+    pub fn len(&self) -> usize {
+        self.0.len()
+    }
+}
+
+pub type Cas = RecCas;
 pub type Db = Database<Cas>;
 pub type Unsealed = UnsealedState<Cas>;
 pub type Sealed = SealedState<Cas>;
@@ -60,7 +88,7 @@ pub fn legacy_net(net: NetID) -> bool {
 }
 
 pub fn new_db() -> Db {
-    Database::new(InMemoryCas::default())
+    Database::new(RecCas::default())
 }
 
 // ---------------------------------------------------------------------------------------------
